@@ -296,6 +296,14 @@ def oracle(ts, kw, r):
                 bad.append(("deletes-outside-flanks-and-gaps", f"interval [{a}, {b}) is not inside a flank or a gap between adjacent sites >= minimum_gap"))
                 break
     in_deleted = lambda x: any(a <= x < b for a, b in deleted)  # noqa: E731
+    # 1b. what is handed to tskit besides the intervals
+    want_simp = dict(filter_populations=kw.get("filter_populations", False), filter_individuals=kw.get("filter_individuals", False),
+                     filter_sites=kw.get("filter_sites", False), record_provenance=False)
+    want_simp.update({k: kw[k] for k in ("keep_unary",) if k in kw})
+    if rec["simplify_kwargs"] != want_simp:
+        bad.append(("simplify-options-not-passed", f"simplify called with {rec['simplify_kwargs']}, expected {want_simp}"))
+    if deleted and rec.get("delete_kwargs") != dict(simplify=False, record_provenance=False):
+        bad.append(("delete-intervals-options", f"delete_intervals called with {rec.get('delete_kwargs')}"))
     # 2. sites
     pos_in = ts.sites_position
     want = np.array([x for x in pos_in if not (user and in_deleted(x))])
